@@ -1,33 +1,33 @@
 use ::unimock::MockFn as _;
-#[::entrait::entrait(pub T, mock_api = Mk, unimock, export, no_deps)]
-async fn f1(s1: String) -> String {
-    let __args: String = String::new() + &::vt::js(&s1.clone());
+macro_rules! stamp { ($($item:tt)*) => { #[::entrait::entrait(pub T, mock_api = Mk, unimock, export, no_deps)] $($item)* } }
+stamp! {
+fn f1(a1: i32, (x2, y2): (i32, i32)) -> String {
+    let __args: String = String::new() + &::vt::js(&format!("{:?}", a1)) + "," + &::vt::js(&format!("{:?}", x2)) + "," + &::vt::js(&format!("{:?}", y2));
     ::vt::emit("enter", &format!("\"f\":\"c000150::f1\",\"deps\":{},\"args\":[{}]", ::vt::js(&String::from("-")), __args));
-    ::vt::yield_once().await;
+    
     let __val = format!("c000150::f1({})", __args);
     ::vt::emit("exit", &format!("\"f\":\"c000150::f1\",\"val\":{}", ::vt::js(&__val)));
     __val
 }
+}
 
 pub fn run() {
     { ::vt::emit("scenario", "\"case\":\"c000150\",\"sc\":1");
-      let u = ::unimock::Unimock::new(Mk.each_call(::unimock::matching!(_)).answers(&|_, q1| { let __a: String = String::new() + &::vt::js(&q1.to_string()); ::vt::emit("answer", &format!("\"m\":\"f1\",\"args\":[{}]", __a)); String::from("ANSWER-f1") }));
-      ::vt::emit("call", &format!("\"m\":\"f1\",\"recv\":{},\"args\":[\"s401\"]", ::vt::js(&::vt::addr(&u))));
-      let r: String = ::vt::block_on(T::f1(&u, String::from("s401")));
+      let u = ::unimock::Unimock::new(Mk.each_call(::unimock::matching!(_, _)).answers(&|_, q1, q2| { let __a: String = String::new() + &::vt::js(&format!("{:?}", q1)) + "," + &::vt::js(&format!("{:?}", q2.0)) + "," + &::vt::js(&format!("{:?}", q2.1)); ::vt::emit("answer", &format!("\"m\":\"f1\",\"args\":[{}]", __a)); String::from("ANSWER-f1") }));
+      ::vt::emit("call", &format!("\"m\":\"f1\",\"recv\":{},\"args\":[\"401\",\"-406\",\"398\"]", ::vt::js(&::vt::addr(&u))));
+      let r: String = T::f1(&u, 401, (-406, 398));
       ::vt::emit("ret", &format!("\"m\":\"f1\",\"val\":{}", ::vt::js(&r)));
       ::vt::emit("end", &format!("\"panicked\":false,\"result\":{}", ::vt::js(&r))); }
     { ::vt::emit("scenario", "\"case\":\"c000150\",\"sc\":2");
       let u = ::unimock::Unimock::new_partial(());
-      ::vt::emit("call", &format!("\"m\":\"f1\",\"recv\":{},\"args\":[\"s401\"]", ::vt::js(&::vt::addr(&u))));
-      let r: String = ::vt::block_on(T::f1(&u, String::from("s401")));
+      ::vt::emit("call", &format!("\"m\":\"f1\",\"recv\":{},\"args\":[\"401\",\"-406\",\"398\"]", ::vt::js(&::vt::addr(&u))));
+      let r: String = T::f1(&u, 401, (-406, 398));
       ::vt::emit("ret", &format!("\"m\":\"f1\",\"val\":{}", ::vt::js(&r)));
       ::vt::emit("end", &format!("\"panicked\":false,\"result\":{}", ::vt::js(&r))); }
     { ::vt::emit("scenario", "\"case\":\"c000150\",\"sc\":3");
       let app = ::entrait::Impl::new(crate::App { id: 3 });
-      ::vt::emit("call", &format!("\"m\":\"f1\",\"recv\":{},\"args\":[\"s401\"]", ::vt::js(&::vt::addr(&app))));
-      let fut = T::f1(&app, String::from("s401"));
-      ::vt::emit("future", "\"m\":\"f1\"");
-      let r: String = ::vt::block_on(fut);
+      ::vt::emit("call", &format!("\"m\":\"f1\",\"recv\":{},\"args\":[\"401\",\"-406\",\"398\"]", ::vt::js(&::vt::addr(&app))));
+      let r: String = T::f1(&app, 401, (-406, 398));
       ::vt::emit("ret", &format!("\"m\":\"f1\",\"val\":{}", ::vt::js(&r)));
       let __res = ::vt::js(&r);
       ::vt::emit("end", &format!("\"panicked\":false,\"result\":{}", __res)); }
